@@ -676,6 +676,38 @@ theorem phys_history_safe (scan : List B → Option String) (ops : List OpM) :
   obtain ⟨h1, h2, _⟩ := runOpsM_spec scan ops MP.init pinv_init
   exact ⟨h2, h1, (ops.foldl (runOpM scan) MP.init).capok⟩
 
+/-- regenerated: the memory events (stack-primitive calls, count updates, indexed accesses) of every parse.c function that
+    `Parse/Phys.lean` mirrors, in source order, are the ones the machine was written from -- `popstateM` (pop one frame, `newtop`,
+    one `push_arg`), `stringendM` (top frame, `bufcount = 0`, popstate), `tokencharM` (`push_buf` | `buf[0]`, `bufcount = 0`, popstate),
+    `commentM`, `popArgsM` (the four `close_*`), `longstringM`, `atsignM` (`statecount--`, then one `pushstate`, `push_buf '@'`), `rootM`,
+    `consumeLoopM` (`states + statecount - 1`), `eofM`, `flushM`, `takeErrorM`, `produce(Wrapped)M`; the translator also checks that NO other
+    function of parse.c touches a count, a block or a stack primitive.  An added / removed / reordered push, pop or indexed access
+    changes this list and the obligation stops checking. -/
+theorem phys_machine_source_ops : memOps = [
+  ("popstate", ["states[--statecount]", "states+statecount-1", "push_arg"]),
+  ("delim_error", ["states+stack_index"]),
+  ("write_codepoint", ["push_buf", "push_buf", "push_buf", "push_buf", "push_buf", "push_buf", "push_buf", "push_buf", "push_buf", "push_buf"]),
+  ("escapeh", ["push_buf"]),
+  ("escapeu", ["write_codepoint"]),
+  ("escape1", ["push_buf"]),
+  ("stringend", ["states[statecount-1]", "bufcount=0", "popstate"]),
+  ("stringchar", ["stringend", "push_buf"]),
+  ("tokenchar", ["push_buf", "buf[0]", "bufcount=0", "popstate"]),
+  ("comment", ["statecount--", "bufcount=0", "push_buf"]),
+  ("close_tuple", ["args[--argcount]"]),
+  ("close_array", ["args[--argcount]"]),
+  ("close_struct", ["args[i]", "args[i+1]", "argcount-=argn"]),
+  ("close_table", ["args[i]", "args[i+1]", "argcount-=argn"]),
+  ("longstring", ["push_buf", "stringend", "push_buf", "push_buf", "push_buf"]),
+  ("atsign", ["statecount--", "pushstate", "pushstate", "pushstate", "pushstate", "pushstate", "pushstate", "push_buf"]),
+  ("root", ["pushstate", "pushstate", "pushstate", "pushstate", "pushstate", "pushstate", "delim_error", "close_array", "close_tuple", "close_table", "close_struct", "delim_error", "popstate", "pushstate", "pushstate", "pushstate"]),
+  ("janet_parser_consume", ["states+statecount-1"]),
+  ("janet_parser_eof", ["consume", "delim_error"]),
+  ("janet_parser_flush", ["argcount=0", "statecount=1", "bufcount=0", "states[0]"]),
+  ("janet_parser_error", ["status", "flush"]),
+  ("janet_parser_produce", ["args[0]", "args[i-1]=args[i]", "argcount--", "states[0]"]),
+  ("janet_parser_produce_wrapped", ["args[0]", "args[i-1]=args[i]", "argcount--", "states[0]"])] := by decide
+
 /-- the shape facts behind `p->buf[0]`: along any such history every frame below the top is a `root` frame and a token frame on top
     has a non-empty scratch buffer -/
 theorem token_scratch_nonempty (scan : List B → Option String) (ops : List OpM) :
